@@ -180,8 +180,9 @@ def check_template(tpl):
 
     env_dom = tpl.get("env_dom")
     envs = [None]
-    if env_dom:
-        names = list(env_dom)
+    local_dom = tpl.get("local_dom") or {}
+    if env_dom or local_dom:
+        names = list(env_dom or {})
         envs = [dict(zip(names, vals)) for vals in itertools.product(*[env_dom[n] for n in names])]
     elif rx.has_bref(ast) or ngroups:
         res["error"] = "regex has capture groups but the template gives no capture domain"
@@ -199,13 +200,14 @@ def check_template(tpl):
         try:
             if env is not None:
                 order = tpl["capture_order"]  # capture names in group-number order
-                g = [env[n] for n in order]
+                g = [env.get(n) for n in order]   # None: a capture local to a $not argument (tpl["local_dom"])
                 east = rx.expand_brefs(ast, g)
             else:
                 east = ast
             tU, tM = rx.Tr(U), rx.Tr(M)
-            sU = Spec(U, mf, of, env)
-            sM = Spec(M, mf, of, env)
+            tU.local_dom = tM.local_dom = {order.index(n) + 1: vs for n, vs in local_dom.items()} if local_dom else {}
+            sU = Spec(U, mf, of, env, local_dom)
+            sM = Spec(M, mf, of, env, local_dom)
             envtag = "" if env is None else " env=" + ",".join(f"{k}={v}" for k, v in env.items())
 
             if "AEM" in lem or "EA" in lem or "NE" in lem or "TWIN" in lem:
@@ -416,7 +418,7 @@ def run_templates(run, templates, procs=16):
         import random as _random
 
         rnd = _random.Random(_seed() + 77)
-        picks = [t for t in templates if not t.get("env_dom")]
+        picks = [t for t in templates if not t.get("env_dom") and not t.get("local_dom")]
         for t in rnd.sample(picks, max(1, len(picks) // 20)) if picks else []:
             t["crosscheck"] = True
     ctx = mp.get_context("fork")
